@@ -11,6 +11,7 @@ import (
 	"verifsim/orch"
 	_ "verifsim/worlda"
 	_ "verifsim/worldp"
+	_ "verifsim/worldr"
 )
 
 func main() {
